@@ -39,7 +39,8 @@ def gen_case(streams, tier):
     classes = g.choice([['bit', 'small'], ['small'], ['bit', 'small'], ['small', 'mid']])
     cfg = gen.make_cfg(nets=(2, 10), classes=classes, max_mul_width=6, mem_wide_aw=0.0,
                        mem_aw=(1, 4), rom_aw_max=3, regs=(0, 3), mems=(0, 2), roms=(0, 1),
-                       max_concat=24, class_pool=['bit', 'small'], write_only_mem_prob=0.2)
+                       max_concat=24, class_pool=['bit', 'small'], write_only_mem_prob=0.2,
+                       dup_mem_name_prob=0.3)
     if 'mid' in classes:
         cfg['ops'] = 'w~&|^n+-<>=xcs'     # no multiplier at 9..24 bits: O(n^2) nets
     script = gen.gen_script(g, cfg)
@@ -55,6 +56,8 @@ def gen_case(streams, tier):
         'wb': g.choice(['dut', 'other', 'dut_implicit']),
         'sched': world.gen_sched(streams, with_iter=False),
         'refused_first': g.random() < 0.25,
+        # the user narrowed the design's legal_ops to the primitives it uses
+        'narrow_legal_ops': g.random() < 0.2,
         'again': [[g.random() < 0.5, g.random() < 0.5, g.choice(['dut', 'other', 'dut_implicit'])]
                   for _ in range(g.choice([0, 0, 0, 1, 1, 2]))],
     }
@@ -70,6 +73,12 @@ def run(case, res):
     sched = case['sched']
     world.setup_world(sched)
     b = world.build_dut(script, sched)
+    if case.get('narrow_legal_ops'):
+        b.block.legal_ops = set(n.op for n in b.block.logic)
+        res.probes.hit('legal_ops_narrowed')
+    # one memory_value_map object, keyed by the original MemBlocks, handed to every Simulation
+    b.shared_mmap = {b.mems[int(k)]: {int(a): v for a, v in d.items()}
+                     for k, d in case['init'].get('mems', {}).items()}
     v = _sitting(case, res, b, case['merge'], case['update_wb'], case['wb'], 0)
     if v is not None:
         return v
@@ -249,8 +258,12 @@ def _sitting(case, res, b, merge, update_wb, wb, sitting):
     for name, val in init.get('regs', {}).items():
         for i, w in enumerate(syn.reg_map[by_name[name]]):
             rmap[w] = (val >> i) & 1
-    mmap = {b.mems[int(k)]: {int(a): v for a, v in d.items()}
-            for k, d in init.get('mems', {}).items()}
+    # the outer dict object is the user's own and is reused from sitting to sitting; the inner
+    # images are refreshed, because pyrtl.Simulation uses them as its storage (documented or
+    # not, that is how every PyRTL simulation treats memory_value_map)
+    mmap = b.shared_mmap
+    for k, d in init.get('mems', {}).items():
+        mmap[b.mems[int(k)]] = {int(a): v for a, v in d.items()}
     try:
         sim = pyrtl.Simulation(tracer=pyrtl.SimulationTrace(block=syn), register_value_map=rmap,
                                memory_value_map=mmap, block=syn)
